@@ -13,7 +13,7 @@ RULE = ("[tick texts: time domains whose default ticks fall in each of the seven
         "dataset shapes of the property (single datum, equal times, unsorted, spans from 1 ms to centuries incl. month ends, "
         "leap days, year ends, the latest datum on a 29th-31st with month / quarter / year ticks; numeric data with a LinearScale; date / datetime / time values) x options in {omitted, empty, "
         "partial} x direction x layering algorithm x bounds x tick display; thorough adds 200..1000-label datasets with conflict "
-        "clusters <= 200. Both back-ends are exported. Non-trivial = more than one datum or a degenerate domain; distinct by input.")
+        "clusters <= 200. Both back-ends are exported. Non-trivial = at least two data (single-datum cases are counted as trivial); distinct by input.")
 
 
 # ------------------------------------------------------------------ impl ---
@@ -420,7 +420,7 @@ def nontrivial(case, io):
     if isinstance(io, dict) and "exc" in io:
         return False
     d = case["py"]["data"]
-    return len(d) > 1 or len(d) == 1
+    return len(d) >= 2
 
 
 EPS = 1e-9
